@@ -25,7 +25,7 @@ def goodW (cfg : Cfg) (T : List Tid) : WPc → Prop
   | .rAcq w e b | .rSend w e b => goodR cfg T (.res w e b)
   | _ => True
 def goodM (cfg : Cfg) (T : List Tid) : MPc → Prop
-  | .addAcq w | .addTStart w => w < T.length
+  | .addAcq w | .addTStart w | .addAcqF w | .addTStartF w => w < T.length
   | .clrPoll (.item (some r)) | .clrRecv (.item (some r)) => goodR cfg T r ∧ ∀ w e, r ≠ .res w e true
   | _ => True
 def goodF (cfg : Cfg) (T : List Tid) : FPc → Prop
